@@ -122,6 +122,14 @@ def run_case(ck, desc):
         flg.temperature, flg.gas_specific_gravity = Tg + 25.0, gg2
         _close(ck, "facade-after-reassignment.gas_FVF", flg.gas_FVF(p, Tpc, ppc), [gas.b_factor_DAK(Tg + 25.0, x, Tpc, ppc) for x in p], desc, tol)
         _close(ck, "facade-after-reassignment.gas_viscosity", flg.gas_viscosity(p, Tpc, ppc), [gas.viscosity_Sutton(Tg + 25.0, x, Tpc, ppc, gg2) for x in p], desc, tol)
+        # long arrays (a history with thousands of stamps): still one stand-alone call per element
+        if int(desc["Sw"] * 1000) % 5 == 0:
+            pl = np.linspace(200.0, 9000.0, 1500)
+            _close(ck, "facade.gas_FVF (1500 pressures)", flg.gas_FVF(pl, Tpc, ppc), [gas.b_factor_DAK(Tg + 25.0, x, Tpc, ppc) for x in pl], desc, tol)
+            _close(ck, "facade.gas_viscosity (1500 pressures)", flg.gas_viscosity(pl, Tpc, ppc), [gas.viscosity_Sutton(Tg + 25.0, x, Tpc, ppc, gg2) for x in pl], desc, tol)
+            _close(ck, "facade.oil_viscosity (1500 pressures)", fl.oil_viscosity(pl), [oil.viscosity_beggs_robinson(T2, x, api2, gg2, gor2) for x in pl], desc, tol)
+            _close(ck, "facade.water_FVF (1500 pressures)", fl.water_FVF(pl), [water.b_water_McCain(T2, x) for x in pl], desc, tol)
+            ck.count("facade_long_arrays")
         ck.count("facade_objects_reassigned")
         return len(p) >= 4 and sal > 0, {"pb": float(fl.pressure_bubblepoint())}
 
